@@ -34,7 +34,11 @@ def check_cache(
 
     from hypergraph.cache import compute_cache_key
 
-    cache_key = compute_cache_key(node.definition_hash, inputs)
+    # Key over the arguments as the callable receives them (original parameter
+    # names) and over the node's output names: renamed inputs or differently named
+    # outputs of the same function must not share an entry.
+    identity = node.definition_hash + "|" + ",".join(node.outputs)
+    cache_key = compute_cache_key(identity, node.map_inputs_to_params(inputs))
     if not cache_key:
         return "", None
 
